@@ -333,6 +333,35 @@ void qsbr::unregister_thread(std::uint64_t quiescent_states_since_epoch_change,
     const auto advance_epoch =
         remove_thread_from_old_epoch && (old_threads_in_previous_epoch == 1);
 
+    if (UNODB_DETAIL_UNLIKELY(epoch_change_prepared && !advance_epoch)) {
+      // LCOV_EXCL_START
+      // The orphaned requests were aged for an epoch change that this thread
+      // will not make after all: its state CAS failed because another thread
+      // registered in the meantime, so this thread is no longer the last one
+      // in the previous epoch. Undo the aging, or the next epoch change would
+      // execute these requests one epoch too early. No epoch change can
+      // complete while this thread is still counted in the previous epoch,
+      // thus only quitting threads may add to the lists concurrently.
+      auto* list =
+          take_orphan_list(orphaned_previous_interval_dealloc_requests);
+      while (list != nullptr) {
+        auto* const next = list->next;
+        list->next = orphaned_current_interval_dealloc_requests.load(
+            std::memory_order_acquire);
+        while (true) {
+          if (UNODB_DETAIL_LIKELY(
+                  orphaned_current_interval_dealloc_requests
+                      .compare_exchange_weak(list->next, list,
+                                             std::memory_order_acq_rel,
+                                             std::memory_order_acquire)))
+            break;
+        }
+        list = next;
+      }
+      epoch_change_prepared = false;
+      // LCOV_EXCL_STOP
+    }
+
     const auto new_state =
         UNODB_DETAIL_UNLIKELY(remove_thread_from_old_epoch)
             ? qsbr_state::
